@@ -189,7 +189,13 @@ def orphans(path: Path, clean: bool, size: bool, show_all: bool, ignore_old: boo
     jobspath = path / "jobs"
 
     def getjobs(path: Path):
-        return ((str(p.relative_to(path)), p) for p in path.glob("*/*") if p.is_dir())
+        # (a link of an experiment index counts even if the job folder does not
+        # exist yet: it is created when the job starts)
+        return (
+            (str(p.relative_to(path)), p)
+            for p in path.glob("*/*")
+            if p.is_dir() or p.is_symlink()
+        )
 
     def show(key: str, prefix=""):
         if size:
